@@ -54,8 +54,14 @@ def judge_chain(w: World, prop: str, sut: S.ServerUnderTest, info: Dict[str, Any
     expected_replies = []
     for k, el in enumerate(elements):
         tok = C._tok(el.get('params', []))
+        hanging = None
+        if cfg['async']:
+            hung = info.get('hanging', ())
+            hanging = lambda t, m: t in hung and sut.service.is_coro.get(m, False)  # noqa: E731
         exp_events, exp_reply = C.expected_element(el, cfg['middlewares'], cfg['handlers'], S.METHOD_MODELS, NODATA,
-                                                   (ProtoFailure,))
+                                                   (ProtoFailure,), hanging)
+        if hanging is not None and any(r['kind'] == 'mw.deadline' and r.get('tok') == tok for r in recs):
+            w.probe('deadline_expired')
         if exp_reply is not None:
             expected_replies.append(exp_reply)
         if tok is None:
@@ -93,6 +99,7 @@ def fam_chain(w: World) -> None:
     cfg = S.draw_config(ch, n, middlewares=True, handlers=True)
     for d in range(n_deliveries):
         S.plan_pauses(w, cfg, n + 1, rate=2, tok_prefix=f'd{d}_' if d else '')
+        infos[d]['hanging'] = S.plan_hangs(w, cfg, infos[d]['doc'])
     w.scenario = {'cfg': cfg, 'texts': [i['text'] for i in infos], 'kinds': [i['kinds'] for i in infos]}
     w.nontrivial = bool(cfg['middlewares']) or bool(cfg['handlers'])
     sut = S.ServerUnderTest(w, cfg, context=SimpleNamespace(mark='ctx-mark'))
@@ -116,9 +123,71 @@ def fam_chain(w: World) -> None:
     w.sig_parts = sig
 
 
-FAMILIES = {'chain': fam_chain}
+def fam_concurrent(w: World) -> None:
+    """Two or three documents are in flight at the same time on ONE asynchronous dispatcher (one task per delivery,
+    seeded start offsets, suspending middlewares / handlers / methods).  Half of the runs deliver the same document
+    (same ids, same methods, own tokens) several times.  Every delivery is judged on its own records."""
+    import asyncio
+    from ..net import ServerCrashed
+    ch = w.ch
+    n_del = 2 + ch.draw(2, 'concurrent.n')
+    same = ch.flag(1, 2, 'concurrent.same_document')
+    infos = [S.gen_document(ch, exotic=True, max_len=3, allow_junk=True, tok_prefix='d0_')]
+    for d in range(1, n_del):
+        if same:
+            text = infos[0]['text'].replace('d0_', f'd{d}_')
+            doc = json.loads(text) if infos[0]['doc'] is not None else None
+            infos.append(dict(infos[0], text=text, doc=doc))
+        else:
+            infos.append(S.gen_document(ch, exotic=True, max_len=3, allow_junk=True, tok_prefix=f'd{d}_'))
+    n = max((len(i['doc']) if isinstance(i['doc'], list) else 1) for i in infos)
+    cfg = S.draw_config(ch, n, middlewares=True, handlers=True, force_async=True)
+    starts = []
+    for d in range(n_del):
+        S.plan_pauses(w, cfg, n + 1, rate=2, tok_prefix=f'd{d}_')
+        infos[d]['hanging'] = S.plan_hangs(w, cfg, infos[d]['doc'], rate=(1, 6))
+        starts.append(ch.choice([0.0, 0.0, 0.125, 1.0], 'concurrent.start'))
+    w.scenario = {'cfg': cfg, 'texts': [i['text'] for i in infos], 'starts': starts, 'same_document': same}
+    w.nontrivial = True
+    sut = S.ServerUnderTest(w, cfg, context=SimpleNamespace(mark='ctx-mark'))
+    outcomes: List[Any] = [None] * n_del
+    spans: List[Any] = [None] * n_del
+
+    async def one(d: int) -> None:
+        await asyncio.sleep(starts[d])
+        a = w.seq
+        try:
+            outcomes[d] = ('ret', await sut.server.aserve(infos[d]['text']))
+        except ServerCrashed as e:
+            outcomes[d] = ('raise', e.__cause__)
+        spans[d] = (a, w.seq)
+
+    async def main() -> None:
+        await asyncio.gather(*(one(d) for d in range(n_del)))
+
+    assert sut.loop is not None
+    sut.loop.run_until_complete(main())
+    if any(a[0] < b[0] < a[1] or b[0] < a[0] < b[1] for i, a in enumerate(spans) for b in spans[i + 1:]):
+        w.probe('deliveries_overlapped')
+    node_recs = [r for r in w.history if r['node'] == sut.node_name]
+    for d, info in enumerate(infos):
+        ctx = {'async': True, 'mws': list(cfg['middlewares']), 'shape': info['shape'],
+               'handler_keys': sorted(cfg['handlers']), 'delivery': d, 'concurrent': True, 'same_document': same}
+        doc = S.check_wellformed(w, PROP, info['text'], outcomes[d], ctx)
+        if outcomes[d][0] == 'raise':
+            return
+        prefix = f'd{d}_'
+        recs = [r for r in node_recs if isinstance(r.get('tok'), str) and r['tok'].startswith(prefix)]
+        judge_chain(w, PROP, sut, info, outcomes[d], doc, recs, ctx)
+        if w.violations:
+            return
+    w.sig_parts = [(r.get('tok'), r['kind'], r.get('mw', r.get('hid'))) for r in node_recs
+                   if r['kind'] in ('mw.enter', 'mw.exit', 'eh.call', 'method.enter')]
+
+
+FAMILIES = {'chain': fam_chain, 'chain.concurrent': fam_concurrent}
 PLAN = {
-    'quick': {'chain': 112000},
-    'thorough': {'chain': 120000},
+    'quick': {'chain': 100000, 'chain.concurrent': 30000},
+    'thorough': {'chain': 120000, 'chain.concurrent': 60000},
 }
 THOROUGH_BUDGET_S = 600
